@@ -16,14 +16,23 @@ bound to the real code through `Wtp.expand('{{fn:...}}')`.
      counterexample.
   G  Gen_Expr: every tree with TLC's value; each is rendered (min/full x
      spaced/tight/upper-case+irregular blanks) and evaluated by the real code.
+     Gen_Expr_ties also enumerates the family "spell": one number written in several ways
+     (leading zeros, a fraction of zeros, a bare point; bare, signed, under operators);
+     TLC checks that the value does not depend on the spelling, the real code evaluates
+     every tree in the 5 renderings and as the number of plural (written tight, with
+     blanks, parenthesised, as a template argument, produced by padleft, other digits).
   V  random trees to depth 5 -> TLC renders them (Gen_Expr FileSpec) -> the real
      code evaluates -> (tokens, observed) batches are validated by Trace_Expr.
 string functions
   M  MC_StrFns: laws of the reference definitions; the transcription of
      titleparts_fn with all deviations off equals the reference; Demo_* show the
      as-is deviations.
-  G  Gen_StrFns: all strings x offsets x search terms with the reference result.
-  V  random calls over a wider alphabet validated by Trace_StrFns.
+  G  Gen_StrFns: all strings x offsets x search terms with the reference result; integer
+     parameters (and the number of plural) also written as non-canonical numerals
+     (StrFns!IntArg reads them: leading zeros / blanks are in the statement, "+", ".0",
+     "e0" are outside the documentation -> drift).
+  V  random calls over a wider alphabet validated by Trace_StrFns (every 5th integer
+     parameter written with leading zeros / blanks, plural of such numerals).
 formatnum
   M  MC_FormatNum: Reverse(Format(n)) = n for all numerals of the bound and all
      shapes; Demo_FormatNum_asis shows the as-is counterexample.
@@ -211,6 +220,104 @@ def run_tie_cases(o: Outcome, cases):
     return events
 
 
+# ---- numeral spellings (Gen_Expr family "spell"): one number written in several ways ----
+SCRIPTS = [("arabic-indic", "\u0660\u0661\u0662\u0663\u0664\u0665\u0666\u0667\u0668\u0669"),
+           ("devanagari", "\u0966\u0967\u0968\u0969\u096a\u096b\u096c\u096d\u096e\u096f"),
+           ("fullwidth", "\uff10\uff11\uff12\uff13\uff14\uff15\uff16\uff17\uff18\uff19")]
+COUNT_TEMPLATE = ("c18count", "{{plural:{{{1}}}|one|many}}")
+SPELL_WORDS = {"leading-zeros": "leading zeros", "trailing-fraction-zeros": "a fraction that ends in zeros",
+               "bare-trailing-point": "a bare trailing point", "no-integer-part": "no integer part"}
+
+
+def spell_routes(case, i):
+    """The texts through which the expression reaches plural: [(route, wikitext, in the statement?, producer)].
+    producer = (wikitext, text it must produce) when the numeral is not written but produced by another function."""
+    mn, fl = case["min"], case["full"]
+    tight = pfcommon.render(mn, "tight")
+    P = "{{plural:%s|one|many}}"
+    routes = [("tight", P % tight, True, None), ("blanks", "{{plural: \n %s  |one|many}}" % pfcommon.render(mn, "spaced"), True, None)]
+    name, digits = SCRIPTS[i % len(SCRIPTS)]
+    rest = [("full-parentheses", P % pfcommon.render(fl, "tight"), True, None),
+            ("template-argument", "{{%s|1=%s}}" % (COUNT_TEMPLATE[0], tight), True, None),
+            # digits of another script: the documentation does not say that they are digits (DRIFT only)
+            ("digits:" + name, P % tight.translate({ord("0") + k: digits[k] for k in range(10)}), False, None)]
+    routes += rest if len(mn) <= 2 else [rest[i % 3]]
+    if len(mn) == 1 and mn[0].isdigit() and mn[0][0] == "0" and len(mn[0]) > 1:
+        # the same text as it comes out of padleft (a count padded to a width)
+        prod = "{{padleft:%s|%d}}" % (mn[0].lstrip("0") or "0", len(mn[0]))
+        routes.append(("produced-by-padleft", P % prod, True, (prod, mn[0])))
+    return routes
+
+
+def _eval_spell(jobs):
+    out = []
+    with pfcommon.Ctx() as c:
+        c.wtp.add_page("Template:" + COUNT_TEMPLATE[0], 10, COUNT_TEMPLATE[1])
+        for routes in jobs:
+            res = []
+            for _, wt, _, prod in routes:
+                if prod is not None and c.run(prod[0]) != ("ok", prod[1]):
+                    res.append(("skip", ""))      # the producer does not produce this text: not a case of this family
+                    continue
+                res.append(c.run(wt))
+            out.append(res)
+    return out
+
+
+def describe_spelling(case):
+    kinds = [SPELL_WORDS[k] for k in case["spell"] if k in SPELL_WORDS]
+    return ("a numeral written with " + ", ".join(kinds)) if kinds else "canonical numerals"
+
+
+def run_spell_cases(o: Outcome, cases):
+    """Trees of the family "spell": the value under the 5 renderings (as every tree); then the expression as the
+    number of plural, reaching it written tight / with blanks / fully parenthesised / as a template argument /
+    produced by padleft (statement: plural selects by number -> VIOLATION) and in digits of another script (DRIFT)."""
+    events = run_tree_cases(o, cases, "numeral-spellings")
+    kinds = Counter()
+    for c in cases:
+        for k in c["spell"] or ["canonical"]:
+            kinds[k] += 1
+    sel = [c for c in cases if c["exp"]["kind"] == "val" and c["one"] != "u"]
+    n_one = sum(1 for c in sel if c["one"] == "eq" and c["spell"])
+    n_lz1 = sum(1 for c in sel if c["one"] == "eq" and "leading-zeros" in c["spell"] and len(c["min"]) <= 2)
+    o.extra["spelling_universe"] = {"trees": len(cases), "selecting": len(sel), "value_one_noncanonical": n_one, **dict(kinds)}
+    if len(cases) < 1500 or n_one < 300 or n_lz1 < 4 or kinds["leading-zeros"] < 500 or kinds["trailing-fraction-zeros"] < 300:
+        raise common.TLCError(f"Gen_Expr spell: the universe lost its non-canonical numerals (vacuity guard): {o.extra['spelling_universe']}")
+    jobs = [spell_routes(c, i) for i, c in enumerate(sel)]
+    res = pmap(_eval_spell, jobs)
+    n_routes = Counter()
+    for case, routes, obs in zip(sel, jobs, res):
+        want = "one" if case["one"] == "eq" else "many"
+        e = case["exp"]
+        val = pfcommon.decimal_text(e["n"], e["d"]) if e["ex"] else "(inexact)"
+        for (route, wt, strict, prod), (k, out) in zip(routes, obs):
+            if k == "skip":
+                continue
+            o.evaluations += 1
+            n_routes[route.split(":")[0]] += 1
+            o.shape(("plural-of-spelling", route.split(":")[0], want, tuple(case["spell"]), len(case["min"])))
+            if k == "ok" and out.strip() == want:
+                continue
+            rec = {"kind": "G-plural-spelling", "gen": "numeral-spellings", "route": route, "min": case["min"], "wikitext": wt,
+                   "expected": want, "value": val, "spelling": case["spell"], "observed": out if k == "ok" else "EXC " + out}
+            if k != "ok":
+                o.violation(rec, f"{wt} raised {out}", cls="plural-exception")
+                continue
+            written = " ".join(case["min"])
+            why = (f"{wt} selected {out!r}: plural selects by NUMBER; its first parameter is {written!r} ({describe_spelling(case)}"
+                   + (f", here produced by {prod[0]}" if prod else "") + f"), the number {val}, for which the documented selection is "
+                   f"{want!r} -- the same number in its canonical spelling selects {want!r}, so the spelling of the numeral decided"
+                   f" (route: {route})")
+            if strict:
+                o.violation(rec, why, cls="plural-of-spelling:" + route)
+            else:
+                o.note_drift({"call": wt, "model": want, "code": out,
+                              "note": "numeral in digits of another script: not said to be digits by the documentation"})
+    o.extra["spelling_universe"]["plural_routes"] = dict(n_routes)
+    return events
+
+
 def obs_record(a):
     if a["kind"] == "val":
         n, d, close = pfcommon.small_fraction(a["frac"])
@@ -263,6 +370,17 @@ def rand_tree(rng, depth):
     return ["bin", op, rand_tree(rng, depth - 1), rand_tree(rng, depth - 1)]
 
 
+# other spellings of the literals (all in Expr!SpellChars): the sampled trees write every 5th of these numerals differently
+RESPELL = {"0": ["00", "0.0", ".0", "0."], "1": ["01", "001", "1.0", "1.00", "01.0", "1."], "2": ["02", "2.0", "002"],
+           "10": ["010", "10.0"], "1.5": ["01.5", "1.50"], "0.5": ["00.5", ".50", "0.50"]}
+
+
+def respell(t, rng):
+    if t[0] == "lit":
+        return ["lit", rng.choice(RESPELL[t[1]])] if t[1] in RESPELL and rng.random() < 0.2 else t
+    return t[:2] + [respell(x, rng) for x in t[2:]]
+
+
 def part_expr(o: Outcome, thorough: bool):
     # ---- M
     r = tlc("MC_Expr", "MC_Expr_pairs_T.cfg" if thorough else "MC_Expr_pairs.cfg", workers=16, timeout=3000)
@@ -288,11 +406,15 @@ def part_expr(o: Outcome, thorough: bool):
     # the declarative "nearest multiple, away from zero at a tie" on every tree of the family)
     r = tlc("Gen_Expr", "Gen_Expr_ties_T.cfg" if thorough else "Gen_Expr_ties_Q.cfg", workers=1, timeout=3000)
     o.add_tlc("Gen_Expr_ties(+MC round reference)", r)
-    tcases = r.cases
+    # (the same TLC run enumerates the family "spell": one number in several spellings, see run_spell_cases)
+    spcases = [c for c in r.cases if c.get("fam") == "spell"]
+    tcases = [c for c in r.cases if c.get("fam") != "spell"]
     # V: the minimal renderings of every tree with a tie, and of every 4th other one, go through Trace_Expr too
     tie_events = [ev for i, (c, ev) in enumerate(zip(tcases, run_tie_cases(o, tcases)[::2]))
                   if i % 4 == 0 or any(k.startswith("round-tie") for k in c["ties"])]
-    cases = cases + tcases
+    # ... and so do the minimal renderings of the spelled numerals (every 2nd tree; all of the short ones)
+    tie_events += [ev for i, (c, ev) in enumerate(zip(spcases, run_spell_cases(o, spcases)[::2])) if i % 2 == 0 or len(c["min"]) <= 2]
+    cases = cases + tcases + spcases
     # which paths of the model the cases exercise (TLC's -coverage runs out of memory on the
     # recursive evaluators, so the counts are taken from the generated cases)
     cov = Counter()
@@ -310,6 +432,8 @@ def part_expr(o: Outcome, thorough: bool):
     # ---- V: random trees to depth 5, rendered by TLC, evaluated by the code, validated by TLC
     rng = random.Random(common.seed() * 1009 + 18)
     trees = [rand_tree(rng, rng.choice([3, 4, 5, 5])) for _ in range(20000 if thorough else 2500)]
+    rng2 = random.Random(common.seed() * 1013 + 19)      # (a second stream: the trees themselves are those of earlier rounds)
+    trees = [respell(t, rng2) for t in trees]
     with Scratch("c18a-") as d:
         (d / "asts.json").write_text(json.dumps(trees))
         r = tlc("Gen_Expr", "Gen_Expr_file.cfg", workers=16, timeout=3000, env={"AST_FILE": str(d / "asts.json")})
@@ -358,6 +482,16 @@ def conc_arg(a):
     return str(a["i"]) if a["k"] == "i" else conc_atoms(a["s"])
 
 
+def numeral_shape(a):
+    """how an integer parameter is written (k = "n"): the classes the spelled universe varies"""
+    t = conc_atoms(a["s"])
+    core = t.strip()
+    body = core.lstrip("+-")
+    return (("blanks",) if core != t else ()) + (("sign" + core[0],) if core[:1] in "+-" else ()) + \
+           (("leading-zeros",) if len(body) > 1 and body[0] == "0" and body[1].isdigit() else ()) + \
+           (("not-plain",) if not body.isdigit() else ())
+
+
 def call_text(fn, args):
     return "{{" + fn + ":" + "|".join(conc_arg(a) for a in args) + "}}"
 
@@ -383,7 +517,12 @@ def run_str_cases(o: Outcome, cases, tag):
     for case, (k, out) in zip(cases, res):
         o.evaluations += 1
         exp = conc_arg(case["exp"])
-        o.shape(("str", case["fn"], len(case["args"]), exp != conc_arg(case["args"][0]) if case["args"] else True))
+        spelled = [a for a in case["args"] if a["k"] == "n"]
+        if spelled:
+            # integer parameters written as non-canonical numerals: distinct by which parameter and how it is written
+            o.shape(("str-numeral", case["fn"], tuple(a["k"] for a in case["args"]), tuple(numeral_shape(a) for a in spelled), case["strict"]))
+        else:
+            o.shape(("str", case["fn"], len(case["args"]), exp != conc_arg(case["args"][0]) if case["args"] else True))
         if k == "ok":
             out = norm_out(out, exp)
             if out == exp:
@@ -395,15 +534,20 @@ def run_str_cases(o: Outcome, cases, tag):
             o.violation(rec, f"{wt} raised {out}", cls=f"{case['fn']}-exception")
             continue
         if not case["strict"]:
-            ndrift[case["fn"]] += 1
-            o.note_drift({"call": wt, "model": exp, "code": out, "note": "outside the documented argument domain"})
+            ndrift[case["fn"] + (" (numeral spelling)" if spelled else "")] += 1
+            o.note_drift({"call": wt, "model": exp, "code": out, "note": "outside the documented argument domain"
+                          + ("".join(f"; parameter {conc_atoms(a['s'])!r} read as {a['i']} by the reference" for a in spelled))})
             continue
         why = f"{wt} returned {out!r}; reference definition: {exp!r}"
+        if spelled:
+            what = "number" if case["fn"] == "plural" else "integer"
+            why += "".join(f"; the parameter written {conc_atoms(a['s'])!r} is the {what} {a['i']}" for a in spelled) + \
+                   f": the call must give what the canonical numeral gives ({what} parameters are read by value, not by spelling)"
         if "asis" in case and out == conc_arg(case["asis"]):
             devs = [d for d, w in case["without"].items() if conc_arg(w) != conc_arg(case["asis"])] or list(case["without"])
             o.classify(rec, why, sorted(devs), cls=f"{case['fn']}:" + "+".join(sorted(devs)))
         else:
-            o.violation(rec, why, cls=f"{case['fn']}-value")
+            o.violation(rec, why, cls=f"{case['fn']}-value" + ("-numeral-spelling" if spelled else ""))
     if ndrift:
         o.extra.setdefault("drift_by_function", Counter()).update(ndrift)
 
@@ -425,9 +569,23 @@ def rand_call(rng):
     fn = rng.choice(["#len", "#pos", "#rpos", "#sub", "#sub", "#replace", "#explode", "#explode", "padleft", "padright",
                      "lc", "uc", "lcfirst", "ucfirst", "urlencode", "#titleparts"])
     s = rand_word(rng, 0, 12)
+    if fn == "#len" and rng.random() < 0.5:
+        # plural: the number as a numeral of 0, 1, 2, ... with leading zeros / blanks
+        fn, n = "plural", rng.choice([0, 1, 1, 1, 2, 3, 10, 11, 21, 100, 101, 1000])
+        t = "0" * rng.choice([0, 0, 1, 1, 2, 3]) + str(n)
+        num = {"k": "n", "s": atoms_of(rng.choice(["", " "]) + t + rng.choice(["", " "])), "i": 0}
+        one, many = rand_word(rng, 1, 3, [c for c in WIDE if c != " "]), rand_word(rng, 0, 3, [c for c in WIDE if c != " "])
+        return fn, [num, {"k": "s", "s": atoms_of(one), "i": 0}, {"k": "s", "s": atoms_of(many), "i": 0}]
     S = lambda t: {"k": "s", "s": atoms_of(t), "i": 0}
-    I = lambda i: {"k": "i", "s": [], "i": i}
     inner = [c for c in WIDE if c != " "]
+
+    def I(i):
+        # every 5th integer parameter is written as a documented non-canonical numeral (leading zeros, blanks around
+        # it); Trace_StrFns reads the numeral itself (StrFns!IntArg)
+        if rng.random() < 0.2:
+            t = ("-" if i < 0 else "") + "0" * rng.choice([0, 1, 1, 2, 3]) + str(abs(i))
+            return {"k": "n", "s": atoms_of(rng.choice(["", " ", "  "]) + t + rng.choice(["", "", " "])), "i": 0}
+        return {"k": "i", "s": [], "i": i}
 
     def needle():
         if s.strip() and rng.random() < 0.7:
@@ -546,6 +704,10 @@ def part_strfns(o: Outcome, thorough: bool):
         rec = {"kind": "V-str", "fn": e["fn"], "args": e["args"], "wikitext": wt, "observed": conc_arg(e["out"]),
                "expected": conc_arg(b["expected"])}
         why = f"Trace_StrFns rejects {wt}: returned {conc_arg(e['out'])!r}, reference {conc_arg(b['expected'])!r}"
+        for a in e["args"]:
+            if a["k"] == "n":
+                why += (f"; the parameter written {conc_atoms(a['s'])!r} is a plain decimal numeral ({', '.join(numeral_shape(a)) or 'canonical'}): "
+                        f"{'number' if e['fn'] == 'plural' else 'integer'} parameters are read by value, not by spelling")
         if e["fn"] == "#titleparts":
             # the sampled titles have no colon: the two numbering deviations are the candidates
             o.classify(rec, why, ["TitlepartsFirstZeroBased", "TitlepartsNegativeCountFromStart"], cls="V-#titleparts")
@@ -717,8 +879,13 @@ def run(tier: str) -> int:
     o.rule = (
         "#expr: every tree of the families (operator pairs x 2 shapes, unary/binary interactions, prefix chains) over the "
         "literal set is one case, evaluated in 5 renderings; distinct by (operator sequence, predicted class); plus seeded random "
-        "trees to depth 5. String functions: every (function, subject string, arguments) of the bounded grid is one case; distinct "
-        "by (function, arity, whether the result differs from the subject). formatnum: numeral patterns x locale shapes; distinct "
+        "trees to depth 5. Numeral spellings: every tree of the family 'spell' (one number written with leading zeros / a fraction "
+        "of zeros / a bare point, bare, signed and under value-preserving operators) is one case, evaluated in 5 renderings and as "
+        "the number of plural through up to 6 routes (tight, blanks, parenthesised, template argument, produced by padleft, other "
+        "digits); distinct by (route, selection, spelling classes, length). String functions: every (function, subject string, "
+        "arguments) of the bounded grid is one case; distinct "
+        "by (function, arity, whether the result differs from the subject); calls whose integer parameters are written as "
+        "non-canonical numerals are distinct by (function, which parameter, how it is written). formatnum: numeral patterns x locale shapes; distinct "
         "by (shape, length, has fraction). A case is non-trivial when its expected result is not its input."
     )
     o.assumptions = [
@@ -793,6 +960,26 @@ def selftest() -> int:
     b1 = validate_str_trace(None, events)
     print(f"Trace_StrFns: recorded rejected={len(b0)}; with #sub result corrupted: rejected={len(b1)} {b1[:1]}")
     ok &= (not b0) and len(b1) == 1 and b1[0]["i"] == 1
+    # 2b. integer / number parameters written as non-canonical numerals are read by TLC (StrFns!IntArg)
+    N = lambda t: {"k": "n", "s": atoms_of(t), "i": 0}
+    calls = [("#sub", [S("Icecream"), N(" 03 "), N("-003")]), ("plural", [N("01"), S("day"), S("days")]), ("plural", [N(" 0010"), S("day"), S("days")]),
+             ("padleft", [S("7"), N("03"), S("0")]), ("#explode", [S("a,b,c"), S(","), N("-01")])]
+    res = _record_calls(calls)
+    events = [{"fn": fn, "args": args, "out": out_record(fn, out)} for (fn, args), (k, out) in zip(calls, res)]
+    n0 = validate_str_trace(None, events)
+    events[1]["out"] = out_record("plural", "days")      # the numeral compared as text: "01" is not "1"
+    events[3]["out"] = out_record("padleft", "7")        # the count read as 0
+    n1 = validate_str_trace(None, events)
+    print(f"Trace_StrFns numerals: recorded rejected={len(n0)}; plural:01 -> 'days' and padleft:7|03 -> '7': rejected at {[b['i'] for b in n1]}")
+    ok &= (not n0) and [b["i"] for b in n1] == [2, 4]
+    # 2c. G, numeral spellings: the judgement of run_spell_cases on a doctored observation
+    sc = {"min": ["01"], "full": ["01"], "exp": {"kind": "val", "what": "", "ex": True, "n": 1, "d": 1, "rk": False}, "one": "eq",
+          "truth": "t", "spell": ["leading-zeros"], "ties": [], "fam": "spell"}
+    routes = spell_routes(sc, 0)
+    obs = _eval_spell([routes])[0]
+    good = all(k == "ok" and out == "one" for k, out in obs)
+    print(f"G plural of spellings: {len(routes)} routes {[r[0] for r in routes]} all select 'one' on the working tree: {good}")
+    ok &= good and len(routes) == 6
     # 3. G comparison: a corrupted expectation must be flagged
     case = {"min": ["2", "*", "3"], "full": ["(", "2", ")", "*", "(", "3", ")"], "exp": {"kind": "val", "what": "", "ex": True, "n": 6, "d": 1, "rk": False}}
     obs = _eval_trees([case])[0]
